@@ -79,7 +79,7 @@ CLAIMS = {
          "Trusted: the toolchain's text/template as rendering reference (as the property states). Templates with call cycles or > 1 MiB output are skipped and counted.",
          "DESIGN.md section 6, C19"),
  "C20": ("exhaustive table enumeration + bounded-exhaustive short strings + rapid PBT vs reference tables",
-         "For all 22 v3 and 14 v2 metrics: every code parses to the exported constant of that name and prints back, the unknown value prints empty and is separated from every defined value by the validity predicate, every weight equals the specification's decimal (PR per scope; every Modified metric at every own value x every base value; MPR over all MS x S x MPR x PR combinations), integers in [-8, max+8] never panic and print empty; every string of length <= 3 over a 24-character alphabet plus rapid strings must parse to unknown unless it is a code; version label parser/printers (v3/metric and legacy v3/version) are mutually inverse on {3.0, 3.1}.",
+         "For all 22 v3 and 14 v2 metrics: every code parses to the exported constant of that name and prints back, the unknown value prints empty and is separated from every defined value by the validity predicate, every weight equals the specification's decimal (PR per scope; every Modified metric at every own value x every base value; MPR over all MS x S x MPR x PR combinations), integers in [-8, max+8] never panic and print empty; every string of length <= 3 over a 28-character alphabet plus rapid strings must parse to unknown unless it is a code; version label parser/printers (v3/metric and legacy v3/version) are mutually inverse on {3.0, 3.1}.",
          "Trusted: reference tables transcribed from the FIRST documents; float equality is sound because both sides are the nearest double of the same decimal literal.",
          "DESIGN.md section 6, C20"),
  "C13": ("exhaustive enumeration with metamorphic (library-vs-library) oracle",
